@@ -32,6 +32,22 @@ def link_slots(w, rng):
     return {"?principal": cedar.uid_json(rng.choice(w.uids)), "?resource": cedar.uid_json(rng.choice(w.uids))}
 
 
+I64_MAX, I64_MIN = 2 ** 63 - 1, -(2 ** 63)
+ARITH_TRIPLES = [(0, I64_MAX, 2), (I64_MAX, 1, 1), (I64_MIN, -1, -1), (2, I64_MAX, 0), (I64_MAX, I64_MAX, I64_MAX), (1, I64_MIN, 1),
+                 (-1, I64_MIN, 0), (3, 2, 1), (I64_MIN, 1, I64_MAX), (0, I64_MIN, -1)]
+
+
+def arith_nestings(rng):
+    L = lambda n: ("lit", ("long", n))  # noqa: E731
+    out = []
+    for o1 in ("add", "sub", "mul"):
+        for o2 in ("add", "sub", "mul"):
+            for (a, b, c) in ARITH_TRIPLES + [tuple(rng.choice([0, 1, -1, 2, 7, I64_MAX, I64_MIN]) for _ in range(3)) for _ in range(3)]:
+                out.append(("binop", o1, L(a), ("binop", o2, L(b), L(c))))
+                out.append(("binop", o1, ("binop", o2, L(a), L(b)), L(c)))
+    return out
+
+
 def make_cases(rng, n_pol, n_tpl, n_set, depth):
     cases = []
     w = None
@@ -49,6 +65,16 @@ def make_cases(rng, n_pol, n_tpl, n_set, depth):
         except cedar.NotExpressible:
             text = None
         cases.append({"p": p, "base": base, "text": text, "json": G.policy_est(p, rng), "world": w})
+    # systematic: every pair of arithmetic operators in both nestings over boundary constants (a wrong parenthesisation in
+    # a printer changes the value or turns a value into an overflow error only for such operands)
+    w = gen.World(rng)
+    wp = world_parts(w, rng)
+    for k, e in enumerate(arith_nestings(rng)):
+        p = {"id": "a%d" % (k % 7), "effect": "permit", "principal": ("any",), "action": ("any",), "resource": ("any",),
+             "conds": [(rng.choice(["when", "unless"]), ("binop", rng.choice(["less", "lesseq", "eq"]), e, ("lit", ("long", rng.choice([0, 1, -1])))))],
+             "annotations": []}
+        base = dict(wp, kind="policy", id=p["id"])
+        cases.append({"p": p, "base": base, "text": G.policy_text(p), "json": G.policy_est(p, rng), "world": w})
     sets = []
     for i in range(n_set):
         w = gen.World(rng)
